@@ -3,6 +3,7 @@ import warnings
 from typing import Any
 from typing import Dict
 from typing import List
+from typing import Optional
 
 from ..logs import ExecutionLog
 from ..market import Market
@@ -38,6 +39,8 @@ class TradingHaltRule(EventABC):
         self.is_enabled: bool = True
         self.halting_time_length: int = 1
         self.halting_time_started: int = 0
+        self.halting_market: Optional[Market] = None
+        self.halting_session: Optional[Session] = None
         self.activation_count: int = 0
         self.target_markets: Dict[str, Market] = {}
         self.trigger_change_rate: float = 0.0
@@ -119,20 +122,27 @@ class TradingHaltRule(EventABC):
                         if simulator.current_session is None:
                             raise AssertionError
                         simulator.current_session.with_order_execution = False
+                        self.halting_market = m
+                        self.halting_session = simulator.current_session
 
     def hooked_before_step_for_market(
         self, simulator: Simulator, market: Market
     ) -> None:
         """event to start the trading."""
-        # TODO: when halting is continued over session
-        if market.get_time() > self.halting_time_started + self.halting_time_length:
-            for m in self.target_markets.values():
-                if m == market:
-                    if simulator.current_session is None:
-                        raise AssertionError
-                    simulator.current_session.with_order_execution = True
-                    m._is_running = True
-                    self.halting_time_started = 0
+        if simulator.current_session is None:
+            raise AssertionError
+        # resume only the market this rule has halted, and only in the session it was halted in
+        # (a new session sets the running state of all markets by itself)
+        if (
+            market == self.halting_market
+            and simulator.current_session == self.halting_session
+            and market.get_time() > self.halting_time_started + self.halting_time_length
+        ):
+            simulator.current_session.with_order_execution = True
+            market._is_running = True
+            self.halting_time_started = 0
+            self.halting_market = None
+            self.halting_session = None
 
 
 TradingHaltRule.hook_registration.__doc__ = EventABC.hook_registration.__doc__
